@@ -49,6 +49,16 @@ def run(tier, seed):
     if infra:
         raise vlib.Infra(f"harness infra error: {infra[0]}")
     bad = [r for r in results if not r["ok"]]
+    known = [r for r in results if r.get("known")]
+    open_ids = {f["id"] for f in vlib.load_known("C01")} | {f["id"] for f in vlib.load_known(PROP)}
+    for r in known:
+        if r["known"] not in open_ids:   # attributed to something that is not a listed open finding
+            r["ok"] = False
+            bad.append(r)
+    for kid in sorted({r["known"] for r in known if r["known"] in open_ids}):
+        n = sum(1 for r in known if r["known"] == kid)
+        ex = next(r for r in known if r["known"] == kid)
+        print(f"KNOWN-FINDING: property={PROP} {kid} re-observed in {n} behaviours, e.g. {ex['detail'][:300]}")
     viol = 0
     byid = {c["id"]: c for c in cases}
     for r in bad[:5]:
@@ -67,6 +77,7 @@ def run(tier, seed):
                 "distinct = distinct action sequences; every one has >= 1 write and is replayed with reads after each action",
         "tlc": stats,
         "reads_compared": sum(r["reads"] for r in results),
+        "known_finding_behaviours": len(known),
         "shape_drift_steps": sum(r["drift"] for r in results),
         "steps_replayed": sum(len(h) for h in behaviours),
     }
